@@ -76,6 +76,8 @@ def run(ctx, prefix):
         scripts.append(sets([("/al%d" % i, 10 - i) for i in range(8)]))
         scripts.append([dict(op="set", addr="/fx_on", ty="T"), dict(op="set", addr="/fx/voice1/vol", ty="i", v=100), dict(op="set", addr="/fx/gain", ty="i", v=9), dict(op="saveload", seed=2)])
         scripts.append([dict(op="set", addr="/fx/voice0/vol", ty="i", v=1), dict(op="set", addr="/fx_on", ty="T"), dict(op="set", addr="/fx/voice1/vol", ty="i", v=127), dict(op="saveload", seed=3)])
+        scripts.append([dict(op="set", addr="/fx_on", ty="T"), dict(op="set", addr="/fx/type", ty="i", v=2), dict(op="set", addr="/fx/level", ty="i", v=55), dict(op="saveload", seed=4)])
+        scripts.append([dict(op="set", addr="/fx_on", ty="T"), dict(op="set", addr="/fx/type", ty="i", v=1), dict(op="set", addr="/fx/level", ty="i", v=77), dict(op="set", addr="/pi", ty="i", v=9), dict(op="saveload", seed=5)])
         for what, text in BAD_FILES:
             scripts.append([dict(op="loadraw", text=text, what=what)])
     p = ctx.path("scripts.ndjson")
